@@ -72,7 +72,8 @@ class SourceTree:
                 if rel.endswith('.pyx'):
                     from .pyxfront import pyx_text_to_ast, Unsupported
                     try:
-                        mod, _ = pyx_text_to_ast(txt, rel)
+                        mod, _ad = pyx_text_to_ast(txt, rel)
+                        mod._cdecls = list(_ad.cdecls)
                     except Unsupported as e:
                         raise AnalysisError('pyx adapter: %s in %s' % (e, rel))
                 else:
